@@ -7,10 +7,10 @@ open Sx Pcore.Ser
 
 def kindOf : String → Option Kind
   | "rx" => some .rx | "sv" => some .sv | "svr" => some .svr | "ts" => some .ts
-  | "tm" => some .tm | "uri" => some .uri | "ty" => some .ty | _ => none
+  | "tm" => some .tm | "uri" => some .uri | "ty" => some .ty | "td" => some .td | _ => none
 
 def kindStr : Kind → String
-  | .rx => "rx" | .sv => "sv" | .svr => "svr" | .ts => "ts" | .tm => "tm" | .uri => "uri" | .ty => "ty"
+  | .rx => "rx" | .sv => "sv" | .svr => "svr" | .ts => "ts" | .tm => "tm" | .uri => "uri" | .ty => "ty" | .td => "td"
 
 /-- parsing state: objects defined so far (pre-order) and ids of the containers still open -/
 structure PS where
